@@ -63,8 +63,8 @@ CLAIMED = {
    note="clock constant within one WriteSector (vp.FreezeClock); K, S, coordinate set and length set bounded as stated; os.File not used (in-memory ReadWriteSeeker with and without WriterAt).",
    ref="6 C14"),
  "C15": dict(
-   text="Crash isolation: symbolic pre-states as in C14 (K<=2 live chunks in S=5 sectors, images padded or as WriteSector leaves them; thorough adds a WriterAt-backed file, a third chunk length and four 512-byte tear points); chunks of 1, 4092 (exact fit) and 4093 bytes are written to a live or a fresh coordinate; the physical writes of one WriteSector are recorded and the process stops after every prefix of them, the next write torn at 0 bytes, at 512-byte boundaries and one byte short; the real Load of every such image succeeds and every other chunk reads back its bytes, absent chunks stay absent.",
-   note="writes reach the disk in program order; single-operation crash histories.",
+   text="Crash isolation: symbolic pre-states as in C14 (K<=2 live chunks in S=5 sectors, images padded or as WriteSector leaves them; thorough adds a WriterAt-backed file, a third chunk length and four 512-byte tear points); chunks of 1, 4092 (exact fit) and 4093 bytes are written to a live or a fresh coordinate; the physical writes of one WriteSector are recorded and the process stops after every prefix of them, the next write torn at 0 bytes, at 512-byte boundaries and one byte short; the real Load of every such image succeeds and every other chunk reads back its bytes, absent chunks stay absent. Also: two chunks of 1..3 sectors anywhere in sectors 2..6, one rewritten to 1 or 4093 bytes (shrinks, grows, moves next to the other), writes of up to 8 bytes torn at every byte; and an interrupted write that follows a completed earlier write on the same Region value (in-place longer in an unpadded file, or relocated), to either chunk or a fresh coordinate.",
+   note="writes reach the disk in program order; crash histories of one interrupted operation, optionally after one completed write.",
    ref="6 C15"),
  "C16": dict(
    text="RCON: WritePacket bytes equal the little-endian reference layout for id, type full int32 and payloads of 0..4 (quick) / 0..8 arbitrary bytes, ReadPacket returns the triple and consumes exactly one frame of two; declared length fully symbolic: below 10 or above 4096 rejected for every int32, accepted at 10, 11, 4095, 4096; login through the real DialRCON (net.Dial and rand stubbed) against the real AcceptLogin over an in-memory duplex with symbolic passwords of length 0..3: success iff equal; Cmd/AcceptCmd/RespCmd/Resp with arbitrary response (id,type): accepted iff id matches and type is 0.",
@@ -84,17 +84,17 @@ CLAIMED = {
 # seeded changes asked for); appended to the claim text of the property.
 EXTRA = {
  "C01": " Also: int/long/byte arrays and lists of 257/129/1025/300 (thorough 1100/1030/4100) elements, every element arbitrary, decoded in order into typed and `any` targets and encoded to the reference bytes; the encoding of an interface-typed sequence is the reference whatever was encoded before it (no content-dependent per-type caching). One Decoder/Encoder for two consecutive documents (first result intact, concatenated output, Encode after a refused value); Marshal/Unmarshal shortcuts with a result held across later calls. The list option on []bool, interface-typed, doubly-pointed and array fields; 600 compounds with skipped fields in one document.",
- "C02": " Also: four levels of anonymous embedding; maps with 2-3 entries whose values are carriers, slices, maps and structs with omitted fields; lists of such structs. Lists of 1100 and 33000 carriers (thorough: structs with omitted fields) element by element and byte for byte; strings, root names and map keys of 32766..70000 bytes: whatever the encoder accepts decodes back, the rest is refused.",
- "C04": " Also: byte/int/long arrays, lists and strings of 1025/300/140/1100/5000 (thorough up to 70000) elements through binary -> text -> binary with one arbitrary element at the 1024 boundary. Integer literals around every range limit (all 3-digit, thorough 5-digit, magnitudes; two arbitrary final digits after concrete prefixes around 2^31, 2^32, 2^63, 2^64) alone, as array element and as compound value: exact in range, never a wrapped number out of range. A fixed valid text of each container kind converts to its reference bytes after any earlier text of 2..5 (thorough 2..6) bytes, accepted or rejected.",
+ "C02": " Also: four levels of anonymous embedding; maps with 2-3 entries whose values are carriers, slices, maps and structs with omitted fields; lists of such structs. Lists of 1100 and 33000 carriers (thorough: structs with omitted fields) element by element and byte for byte; strings, root names and map keys of 32766..70000 bytes: whatever the encoder accepts decodes back, the rest is refused. A carrier capturing one flat compound with 525 empty End-typed lists and 75 empty int lists byte for byte (nothing accumulates per captured value), the same document skipped as unknown fields.",
+ "C04": " Also: byte/int/long arrays, lists and strings of 1025/300/140/1100/5000 (thorough up to 70000) elements through binary -> text -> binary with one arbitrary element at the 1024 boundary. Integer literals around every range limit (all 3-digit, thorough 5-digit, magnitudes; two arbitrary final digits after concrete prefixes around 2^31, 2^32, 2^63, 2^64) alone, as array element and as compound value: exact in range, never a wrapped number out of range. A fixed valid text of each container kind converts to its reference bytes after any earlier text of 2..5 (thorough 2..6) bytes, accepted or rejected. Every string of 3..4 (thorough 3..5) bytes over digits, signs, dot and suffix letters that starts like a number (1.20.4, 1st, -foo) survives binary -> text -> binary as value and as key; 130 and 300 blanks in front of a value or inside an array prefix change neither the announced tag type nor the converted bytes.",
  "C06": " Also: String, ByteArray, Ary[VarInt], BitSet and Tuple{String,Int} at 127/128/300/16384/70000 (thorough also 129/16383/32767) elements with arbitrary contents, whole-value comparison and exact counts. Optional fields decoded absent then present into the same destination (FixedBitSet, Ary, Tuple); packets built by Marshal held across later Marshal calls; ReadFrom after a truncated read into the same destination; empty NBT containers as fields; Scan on payloads cut at field boundaries and with a trailing zero-length field. Ary behind UnsignedByte (127..255 elements) and UnsignedShort (300, thorough 32768/40000) prefixes; an NBT field written after one whose encoding failed.",
  "C07": " Also: frames of 300 KiB and just below the 2 MiB limit (Packet Length of 4 VarInt bytes) in every threshold class against the independent frame reader; packets received earlier and held in their own Packet stay intact across later Pack/UnPack calls with always-reused pooled buffers. After a failed Pack or UnPack the next one is unaffected; payloads of 32767/65535/327679 bytes (inflated size a multiple of the deflate window). Runs of one byte just below 2 MiB (the model codec compresses them to a few bytes, real deflate about a thousandfold); Conn frames read and written by the packet layer in each threshold class.",
- "C08": " Also: Registry.ReadFrom (raw and typed entries) and ReadTagsFrom on every byte string of 0..7 (thorough 0..9) bytes, fresh and populated; text components in NBT form and chat-type headers on every byte string of 0..7 (thorough 0..9) bytes; declared sizes of 32767..2^22 over streams of 0..3 bytes for String, ByteArray, BitSet, Ary, Identifier and both frame modes; arrays declaring 0..70001 and 2^22 elements over streams holding 1500/5000 (thorough 70000) elements: never a panic, success exactly when every declared element is present. Chunks whose light masks and arrays disagree; no-progress loops on bounded inputs are violations (vp.NoSpin, command dispatcher and field decoders).",
- "C10": " Also: single calls of 1025 and 4097 (thorough 2049) bytes in every buffer arrangement; the encrypted Conn over a transport delivering 1 or 3 bytes per Read. Totals of 272/528/1040 bytes; 4095..5000-byte packets over the encrypted Conn, also over a 1500-byte-per-read transport.",
+ "C08": " Also: Registry.ReadFrom (raw and typed entries) and ReadTagsFrom on every byte string of 0..7 (thorough 0..9) bytes, fresh and populated; text components in NBT form and chat-type headers on every byte string of 0..7 (thorough 0..9) bytes; declared sizes of 32767..2^22 over streams of 0..3 bytes for String, ByteArray, BitSet, Ary, Identifier and both frame modes; arrays declaring 0..70001 and 2^22 elements over streams holding 1500/5000 (thorough 70000) elements: never a panic, success exactly when every declared element is present. Chunks whose light masks and arrays disagree; no-progress loops on bounded inputs are violations (vp.NoSpin, command dispatcher and field decoders). Every palette kind (bits per entry chosen concretely: single, linear, hash at 5..8, global, biome kinds) with any int32 as declared palette length followed by 0..3 arbitrary bytes, fresh and used containers.",
+ "C10": " Also: single calls of 1025 and 4097 (thorough 2049) bytes in every buffer arrangement; the encrypted Conn over a transport delivering 1 or 3 bytes per Read. Totals of 272/528/1040 bytes; 4095..5000-byte packets over the encrypted Conn, also over a 1500-byte-per-read transport. Byte-at-a-time schedules: a first call of 0..34 bytes, then calls of one, two or three bytes until 36 bytes have passed (a short call on every ring position, the wrap included), both directions.",
  "C12": " Also: with-data constructors with palettes beyond the indirect range (257/300 block states, 9/16/17 biomes: the saved form indexes its own palette). Saved palettes of 1024..4096 entries over 4096 positions; reload after a truncated section. A value dying and returning around an exactly full palette of 16..256 entries.",
  "C13": " Also: the save form of a container in every representation class (1..300 distinct states, 1..64 biomes) read back by the with-data constructors position by position; ChunkToSave -> ChunkFromSave of a chunk with sections over a four-state mini registry whose ids and names coincide with the real registry (air, stone, granite, polished granite), with arbitrary blocks at chosen positions, a biome, light arrays absent / present-and-dark / present with arbitrary bytes, status and a height map. Two or three block entities with and without NBT data, into fresh and used chunks, re-written byte for byte.",
  "C03": " Also: the typed decoder fed from bytes.Reader and (thorough) bytes.Buffer sources (which expose Len and friends) as well as a bare reader; a non-empty list whose element type is TAG_End counts as an unknown tag id. Byte arrays declaring 65537/131073 bytes with 0/1/65535/65536/all payload bytes present; lists and compounds nested 100..600 levels through every byte-level decoder and the text converter; no-progress loops on the bounded inputs are violations (vp.NoSpin).",
  "C09": " Carriers and dynbt.Value on structured values (several multi-byte elements, nested arrays, a compound) under all schedules; payloads of 4096..70000 bytes with the writer failing right after the header, mid-frame or on the last byte, and the stream of such a frame ending or failing early. The last read of a stream may deliver its data together with io.EOF (packet fields, NBT targets); NBT fields inside packets with failing writers and readers.",
- "C14": " Two (thorough: three) successive writes on one Region value from arbitrary small layouts (state kept between calls). Bursts of two (thorough: three) writes with checks only at the end, on fresh and loaded regions; data returned by ReadSector held across later reads and writes. PadToFullSector on loaded regions with holes, backed by a plain seeker, a WriterAt and a truncatable file.",
+ "C14": " Two (thorough: three) successive writes on one Region value from arbitrary small layouts (state kept between calls). Bursts of two (thorough: three) writes with checks only at the end, on fresh and loaded regions; data returned by ReadSector held across later reads and writes. PadToFullSector on loaded regions with holes, backed by a plain seeker, a WriterAt and a truncatable file. Loaded regions in bursts start from a full or a 100-byte chunk in a padded or unpadded file (an in-place rewrite then moves the end of the file).",
  "C17": " After a write that failed at offset 0, 1 or last-1 the next component is written and read back as usual; chat-type targets that are blank, style-only or a translation.",
  "C18": " Repeated presentation of the same (key, signature): an acceptance is backed by an RSA success against the embedded key in that very call. Server ids of 0..100 bytes with 16-byte secrets and 162-byte keys (hash stubs functionally consistent); a PublicKey value reused for a second packet with another key and the same signature. Signature lengths 0,1,2,256,512,513 against a stub services key with a 4096-bit modulus.",
  "C11": " Also: 4096 values at 4..32 bits on the wire (256..2048 longs); ReadFrom after a truncated ReadFrom.",
